@@ -13,6 +13,7 @@ mod arcad;
 mod cstrad;
 mod feedad;
 mod intresad;
+mod objad;
 mod vecad;
 mod viewsad;
 mod wakerad;
@@ -27,6 +28,7 @@ fn main() {
     match args[1].as_str() {
         "vec" => vecad::main(&args[2..]),
         "arc" => arcad::main(&args[2..]),
+        "obj" => objad::main(&args[2..]),
         "views" => viewsad::main(&args[2..]),
         "intres" => intresad::main(&args[2..]),
         "feed" => feedad::main(&args[2..]),
